@@ -1041,12 +1041,13 @@ def malformed_cases(rng, target, uid0):
     case(G.Arr(S['int'], None), [('{',), ('}',)], g, 'EmptyIncomplete')
     g, S = fresh()
     case(G.Arr(G.Arr(S['int'], 2), None), [('{',), ('{',), E(1), (',',), E(2), (',',), E(3), ('}',), ('}',)], g, 'TooMany')
-    # the byte offset of an index designator is computed modulo 2^64 (finding index-designator-wraps): the model
-    # mirrors the wrap-around and accepts, the reference (and gcc) reject
+    # the byte offset of an index designator must not wrap modulo 2^64 (finding index-designator-wraps, fixed)
     g, S = fresh()
-    case(G.Arr(S['int'], 4), [('{',), ('raw', '[0x4000000000000002ull] =', '[4611686018427387906 ='), E(7), ('}',)], g, 'WRAP')
+    case(G.Arr(S['int'], 4), [('{',), ('raw', '[0x4000000000000002ull] =', '[4611686018427387906 ='), E(7), ('}',)], g, 'IdxTooLarge')
     g, S = fresh()
-    case(G.Arr(S['short'], 1), [('{',), ('raw', '[0x8000000000000000ull] =', '[9223372036854775808 ='), E(1), ('}',)], g, 'WRAP')
+    case(G.Arr(S['short'], 1), [('{',), ('raw', '[0x8000000000000000ull] =', '[9223372036854775808 ='), E(1), ('}',)], g, 'IdxTooLarge')
+    g, S = fresh()
+    case(G.Arr(S['short'], None), [('{',), ('raw', '[0x8000000000000001ull] =', '[9223372036854775809 ='), E(1), ('}',)], g, 'IdxTooLarge')
     # 32 nested aggregates: the cursor stack obj[32] overflows ("internal error: too many designators")
     g, S = fresh()
     t = S['int']
@@ -1074,14 +1075,6 @@ def run_malformed(ctx, oracle, R):
             if err is None:
                 if rc != 0 or not got.startswith('ok'):
                     bad.append(('valid deep initializer: cproc rc=%d, model %s' % (rc, got), c))
-                continue
-            if err == 'WRAP':
-                if not got.startswith('ok'):
-                    bad.append(('model gives `%s` for a wrapping index designator (the C accepts it)' % got, c))
-                if rc == 0:
-                    R.viol.append(('index designator beyond 2^64 / element size is accepted: `%s`' % case_source(c).strip(), 'index-designator-wraps', case_source(c)))
-                elif got.startswith('ok'):
-                    bad.append(('cproc rejects a wrapping index designator, the model accepts it', c))
                 continue
             if got != 'err ' + err:
                 bad.append(('model gives `%s`, expected error %s' % (got, err), c))
